@@ -145,6 +145,7 @@ def run_pipe(case):
         res.traces += 1
         if p.exc is not None:
             res.bump("aborted_runs")
+            res.bump("aborted:" + type(p.exc).__name__ + ":" + str(p.exc)[:60])
         for key, msg, det in p.viol[:3]:
             res.violate(key, msg + f" [cfg={cfg} symbols={symbols}]", dict(kind="pipe1", cfg=cfg, base=case["base"], symbols={str(k): v for k, v in symbols.items()}))
         hb = tuple(round(float(b), 12) for b in p.state._history["beta"])
@@ -275,7 +276,14 @@ def run_duo(case):
     return session.run_duo(case, lambda: [schedule_monitor("sched")])
 
 
-KINDS = {"duo": run_duo, "edge": run_edge, "stateful": run_stateful, "block": run_block, "rw1": run_rw1, "first": run_first, "pipe": run_pipe, "pipe1": run_pipe1}
+def run_cross5(case):
+    """A checkpoint written under options A resumed by a fresh sampler with options B: every reweighting transition of the resumed run
+    (history with batches of another size, another ESS / volume-variation target) satisfies the schedule oracle."""
+    from mc import session
+    return session.run_cross_resume(case, lambda: [schedule_monitor("sched", resumed=True)])
+
+
+KINDS = {"cross": run_cross5, "duo": run_duo, "edge": run_edge, "stateful": run_stateful, "block": run_block, "rw1": run_rw1, "first": run_first, "pipe": run_pipe, "pipe1": run_pipe1}
 
 FACTORS = [
     ("sample", ["tpcn", "rwm"]),
@@ -315,6 +323,8 @@ def plan(ctx):
     dcfg = dict(n_particles=8, d=1, ess_ratio=1.0, n_total=10 ** 6, eval="scalar", clustering=False)
     duo = [{"kind": "duo", "cfg": dict(dcfg, vv=vv), "base": ctx.seed, "depth": 5 if th else 4, "shard": [sh, 8]} for vv in (None, 0.5) for sh in range(8)]
     ctx.explore("two-samplers-interleaved", duo)
+    from mc import session as _s2
+    ctx.explore("resume-with-other-options", [{"kind": "cross", "cfg": dict(n_particles=16, d=2, n_total=48, eval="scalar", clustering=False), "pair": list(pr), "base": ctx.seed + b} for pr in _s2.CROSS for b in ((0, 5) if th else (0,))])
     strength = 3 if th else 2
     rows = lattice.covering_array(FACTORS, strength=strength, seed=ctx.seed)
     cov, tot = lattice.count_covered(rows, FACTORS, strength)
